@@ -76,7 +76,7 @@ def make_source(ctx, model, table, store, tag="data"):
         return path, storage.delimited_raw_rows(table), os.path.basename(path)
     if store in ("fixed-stream", "fixed-file"):
         widths = model.widths()
-        delimiter = {"lf": "\n", "cr": "\r", "crlf": "\r\n", None: "\n", "any": "\n"}[model.line_delimiter]
+        delimiter = {"lf": "\n", "cr": "\r", "crlf": "\r\n", None: "\n", "any": "\n", "none": ""}[model.line_delimiter]
         text = storage.fixed_text(table, widths, delimiter)
         raw = [[cell.ljust(w) for cell, w in zip(row, widths)] for row in table]
         if store == "fixed-stream":
